@@ -80,7 +80,7 @@ PROPS = {
     "C18": dict(level="exploration", parts=[dict(engine="e3", quick=6000, thorough=150000)],
                 text="2-4 threads enter generated fixpoint / fallback cycles (nested, conditional) at different members under seeded schedules; every value = least fixpoint / SCC fallback reference, all threads terminate.",
                 note="Fallback programs are explored within one revision only (recorded C13 finding needs a later revision)."),
-    "C19": dict(level="exploration", parts=[dict(engine="e3", quick=6000, thorough=150000)],
+    "C19": dict(level="exploration", parts=[dict(engine="e3", quick=12000, thorough=150000)],
                 text="Trace validation: every E3 run (reader, cross-thread cycle, writer-cancellation, token-cancellation and panic-with-waiters scenarios) records the operations of the dependency graph and of claim release through a feature-gated hook; an independent executable model of the protocol replays the trace: every wait is woken exactly once and resumes with that result, no wake-up reaches a non-waiting thread, the thread wait-for graph (with edges re-pointed by lock transfers) stays acyclic after every insertion, each wake-up result is justified by the release (or ownership hand-over) that caused it, nothing is left waiting at quiescence.",
                 note="The exhaustive model check named in the property's quantifier is outside this technique family and is not claimed; the claim is trace validation over all explored schedules."),
     "C20": dict(level="exploration", parts=[dict(engine="e3", quick=15000, thorough=150000)],
@@ -249,6 +249,19 @@ def run_check(prop, tier):
     finish_check(prop, tier, cfg, parts, seed, t0, out_root, all_outs, results, harness_errors, aborts, miri)
 
 
+def case_hash(path):
+    """Identifies one generated case (program, inputs, history / rounds, scheduler parameters)."""
+    import hashlib
+    try:
+        c = json.load(open(path))
+    except Exception:
+        return "?"
+    cc = c.get("conc") or {}
+    key = {"prog": c.get("prog"), "world": c.get("world"), "hist": c.get("hist"), "panic_at": c.get("panic_at"), "rounds": cc.get("rounds"),
+           "sched": [cc.get("strategy"), cc.get("sched_seed"), cc.get("stay_pct"), cc.get("pct_depth"), cc.get("pct_horizon"), cc.get("spurious_pct")]}
+    return hashlib.sha1(json.dumps(key, sort_keys=True).encode()).hexdigest()[:12]
+
+
 WORKER_CMDS = {}
 
 
@@ -388,7 +401,10 @@ def finish_check(prop, tier, cfg, parts, seed, t0, out_root, all_outs, results, 
                 continue
             if p.returncode == 1 and "REPRODUCED" in p.stdout:
                 sig = v.get("signature", "")
-                hit = [k for k in known if k[0] == prop and k[1] == sig]
+                # a finding can also be listed for one specific history: signature#<hash of the
+                # generated (unminimised) case>
+                hsig = sig + "#" + case_hash(v["replay"][:-len(".json")] + ".full.json")
+                hit = [k for k in known if k[0] == prop and k[1] in (sig, hsig)]
                 if hit:
                     known_hits.append((sig, hit[0][2]))
                     continue
@@ -413,7 +429,14 @@ def finish_check(prop, tier, cfg, parts, seed, t0, out_root, all_outs, results, 
                     subprocess.run([sim_bin(engine), "replay", dst], env=ENV, stdout=subprocess.PIPE, stderr=subprocess.PIPE, text=True, timeout=HANG_S)
                     harness_errors.append(f"worker {w} was killed as hung at seed {seedinfo[1]} but the seed terminates when replayed alone")
                 except subprocess.TimeoutExpired:
-                    confirmed.append(({"seed": int(seedinfo[1]), "classes": ["hang"], "detail": f"the run neither finished nor reached a scheduling point within {HANG_S:.0f}s (worker killed; replay hangs as well)", "signature": f"{prop}|hang"}, dst))
+                    sig = f"{prop}|hang"
+                    hsig = sig + "#" + case_hash(dst)
+                    hit = [k for k in known if k[0] == prop and k[1] in (sig, hsig)]
+                    if hit:
+                        known_hits.append((hit[0][1], hit[0][2]))
+                        os.remove(dst)
+                    else:
+                        confirmed.append(({"seed": int(seedinfo[1]), "classes": ["hang"], "detail": f"the run neither finished nor reached a scheduling point within {HANG_S:.0f}s (worker killed; replay hangs as well) [case {hsig}]", "signature": sig}, dst))
                 continue
             p = subprocess.run([sim_bin(engine), "show", "--prop", prop, "--seed", seedinfo[1], "--tier", tier], env=ENV, stdout=subprocess.PIPE, stderr=subprocess.PIPE, text=True)
             if p.stdout.strip().startswith("{"):
